@@ -50,6 +50,7 @@ def check(ctx: Ctx) -> str:
     from .c08 import r3_safe_repr
 
     r3_safe_repr(ctx, "R6")
+    call_emission_rule(ctx, "R7")
     return __doc__ or ""
 
 
@@ -272,3 +273,68 @@ def r4_compile_expression(ctx: Ctx) -> None:
               detail={"stored": stored, "read": read})
     ctx.check('state="variable"' in ast.unparse(ce.node).replace("'", '"'), "variable-state", "environment:Environment.compile_expression", "lexer start state", "the expression is no longer lexed in the variable state", ce.loc())
     ctx.check("parser.stream.eos" in ast.unparse(ce.node), "eos-check", "environment:Environment.compile_expression", "trailing input check", "trailing tokens after the expression are no longer rejected", ce.loc())
+
+
+def call_emission_rule(ctx: Ctx, rid: str) -> None:
+    """(skeletons) The argument list signature() emits contains every part of the call node on
+    every path - whichever of the two keyword forms is chosen - and the compiler's own extra
+    keywords (caller / _loop_vars / _block_vars) are passed as the generator-bound *names*."""
+    from ..emitrules import entry_kind
+    from ..emitrules import get_paths
+    from ..emitrules import reparse
+    from ..emit import EmitModel
+
+    ctx.use("compiler")
+    ctx.rule(rid, "(skeletons) an emitted call passes every positional, keyword, *args and **kwargs operand of the node on every path (plain and **{...} keyword form), and the compiler's extra keywords as the bound names")
+    res = get_paths(ctx)
+    model = EmitModel(ctx.repo)
+    n = 0
+    extras = {"caller", "_loop_vars", "_block_vars"}
+    for entry in ("signature", "visit_Call", "visit_Filter", "visit_Test"):
+        items = res.get(entry)
+        ctx.need(items is not None, f"no emission paths for {entry}")
+        kind = entry_kind(model, entry)
+        bad_parts: dict[str, str] = {}
+        bad_extra: dict[str, str] = {}
+        for p, sk in items:
+            if p.outcome != "normal" or p.decisions.get("optimizer folds this node") is True:
+                continue
+            n += 1
+            visited = [v[1] for v in sk.visits]
+            present = {"dyn_args": None, "dyn_kwargs": None}
+            counts = {"args": None, "kwargs": None}
+            for lab, val in p.decisions.items():
+                for part in present:
+                    if lab in (f"node.{part}", f"node.{part} is not None"):
+                        present[part] = bool(val) if present[part] is None else (present[part] and bool(val))
+                for part in counts:
+                    if lab == f"len(node.{part})" and isinstance(val, int) and not isinstance(val, bool):
+                        counts[part] = val
+            for part, there in present.items():
+                # (None: this path never asked whether the operand exists - it is ignored)
+                if (there or there is None) and f"node.{part}" not in visited:
+                    bad_parts.setdefault(part, sk.text.strip()[:160])
+            for part, k in counts.items():
+                if k is None:
+                    bad_parts.setdefault(part, sk.text.strip()[:160])
+                for i in range(k or 0):
+                    if not any(v in (f"node.{part}[{i}]", f"node.{part}[{i}].value") for v in visited):
+                        bad_parts.setdefault(f"{part}[{i}]", sk.text.strip()[:160])
+            if entry == "visit_Call":
+                tree = reparse(sk, entry, kind)
+                if tree is not None:
+                    for c in ast.walk(tree):
+                        if isinstance(c, ast.keyword) and c.arg in extras and not (isinstance(c.value, ast.Name) and c.value.id == c.arg):
+                            bad_extra.setdefault(c.arg, sk.text.strip()[:160])
+                        if isinstance(c, ast.Dict):
+                            for k_, v_ in zip(c.keys, c.values):
+                                if isinstance(k_, ast.Constant) and k_.value in extras and not (isinstance(v_, ast.Name) and v_.id == k_.value):
+                                    bad_extra.setdefault(k_.value, sk.text.strip()[:160])
+        ctx.check(not bad_parts, f"call-parts:{entry}", f"compiler:CodeGenerator.{entry}", f"operands dropped from the emitted call: {sorted(bad_parts)}",
+                  f"{entry} emits a call that leaves out {sorted(bad_parts)} of the node on some path, e.g. `{next(iter(bad_parts.values()), '')}`: `{{{{ f(a, class='x', *rest) }}}}` then calls f without those arguments", "src/jinja2/compiler.py",
+                  detail={"entry": entry, "dropped": bad_parts})
+        if entry == "visit_Call":
+            ctx.check(not bad_extra, "call-extras", "compiler:CodeGenerator.visit_Call", f"extra keywords {sorted(bad_extra)} not passed as the bound names",
+                      f"the compiler's own keywords {sorted(bad_extra)} are written as something else than the local of the same name, e.g. `{next(iter(bad_extra.values()), '')}`: the callee of a `{{% call %}}` block receives that value instead of the caller macro / the loop variables",
+                      "src/jinja2/compiler.py", detail={"extras": bad_extra})
+    ctx.floor("call emission paths", n, 200)
